@@ -184,7 +184,7 @@ def build_mode(ctor, vals):
     return ctor(*[vals[n] for n, _, _ in args_of(ctor)])
 
 
-QUICK_INTS = {-32768, -1, 0, 2, 8, 32768, 65535, 65536}
+QUICK_INTS = {-32768, -1, 0, 1, 2, 4, 8, 32768, 65535, 65536}
 FULL_CLASSES = {"Movw", "Addb", "Cmpw", "Xorb", "Rrc", "Push", "Call"}
 
 
@@ -258,18 +258,22 @@ def enumerate_instances(cname, cls, table, rng, thorough):
                     choice.append((ctor, vals))
                 add(make(choice), "diag:" + "+".join(c.__name__ for c in combo))
     if thorough and len(per_slot) == 2:
-        # the full register product for every pair of register-taking modes, and seeded random integers
+        # every pair of register-taking modes: the full register product for the classes in FULL_CLASSES, 48 seeded
+        # random register pairs for the others; seeded random offsets
         regmodes = [[ctor for ctor, _ in alts if any(k == "r" for _, k, _ in args_of(ctor))] for _, alts in per_slot]
         for c0, c1 in itertools.product(*regmodes):
-            for r0 in range(16):
-                for r1 in range(16):
-                    ch = []
-                    for si, (ctor, r) in enumerate(((c0, r0), (c1, r1))):
-                        vals = {}
-                        for an, k, _ in args_of(ctor):
-                            vals[an] = reg(r) if k == "r" else (rng.randrange(-32768, 65536) if k == "i" else "L_t")
-                        ch.append((ctor, vals))
-                    add(make(ch), "regs:%s+%s" % (c0.__name__, c1.__name__))
+            if cname in FULL_CLASSES:
+                pairs = [(r0, r1) for r0 in range(16) for r1 in range(16)]
+            else:
+                pairs = [(rng.randrange(16), rng.randrange(16)) for _ in range(48)]
+            for r0, r1 in pairs:
+                ch = []
+                for si, (ctor, r) in enumerate(((c0, r0), (c1, r1))):
+                    vals = {}
+                    for an, k, _ in args_of(ctor):
+                        vals[an] = reg(r) if k == "r" else (rng.randrange(-32768, 65536) if k == "i" else "L_t")
+                    ch.append((ctor, vals))
+                add(make(ch), "regs:%s+%s" % (c0.__name__, c1.__name__))
     return out
 
 
@@ -318,7 +322,7 @@ def enc_records(table, rng, thorough, rig=None):
                 skip("%s:not tokenisable" % cname)
                 continue
             recs.append(r)
-            if rig is not None and not macro and "L_" not in text:
+            if rig is not None and not macro and "L_" not in text and not inst["tag"].startswith("regs:"):
                 o2 = rig.observe_asm(ISA, text)
                 r2 = record(cname, "asm", text, o2, inst)
                 if r2 is not None:
@@ -336,9 +340,9 @@ TRIPLE = ["--triple=msp430"]
 
 
 def reference_corpus(rng, table_len):
-    """Byte strings beyond what ppci emitted: every third first word with the extension words its format takes."""
+    """Byte strings beyond what ppci emitted: every 7th first word with the extension words its format takes."""
     bl = []
-    for w in range(0, 65536, 3):
+    for w in range(0, 65536, 7):
         n = table_len(w)
         if n == 0:
             n = 2
@@ -368,8 +372,13 @@ def llvm_crosscheck(ctx, byte_lists, rng):
     if not os.path.exists(isagen.LLVM_MC):
         ctx.note("llvm-mc-14 not installed: Msp430.tla not cross-checked")
         return
-    uniq = sorted({tuple(b) for b in byte_lists if len(b) in (2, 4, 6)} | {tuple(b) for b in reference_corpus(rng, _length_of)})
-    dis = isagen.disassemble(TRIPLE, [list(b) for b in uniq])
+    emitted = sorted({tuple(b) for b in byte_lists if len(b) in (2, 4, 6)})
+    if len(emitted) > 6000:     # the reference disassembler is slow to start and to warn: a seeded sample is enough here
+        emitted = rng.sample(emitted, 6000)
+    uniq = sorted(set(emitted) | {tuple(b) for b in reference_corpus(rng, _length_of)})
+    dis = []
+    for k in range(0, len(uniq), 4000):
+        dis += isagen.disassemble(TRIPLE, [list(b) for b in uniq[k:k + 4000]], ([0x0F, 0x4F], "mov r15, r15"))
     recs = []
     crashed = 0
     for b, text in zip(uniq, dis):
@@ -430,10 +439,10 @@ def c08_part(ctx, thorough):
         "every concrete instruction class of get_arch('msp430').isa (10 jumps, 8 single-operand, reti, 23 double-operand, "
         "the 6 emulated instructions ppci renders) x {every combination of source and destination addressing-mode "
         "constructors, every register r0..r15 in every register slot of every mode, the diagonal, boundary immediates / "
-        "offsets and label distances enumerated by TLC (Msp430_MC.Table; quick: diagonal and all values for 7 classes, 8 "
+        "offsets and label distances enumerated by TLC (Msp430_MC.Table; quick: diagonal and all values for 7 classes, 10 "
         "boundary values for the others), jumps from two places}; bytes = encode() + the instruction's own relocations applied (thorough: "
-        "the full register product for every pair of register-taking modes with seeded random offsets, random jump "
-        "distances, and the assembler on the printed text of label-free lines); TLC: Core(Decode(bytes)) = Core(Asm(printed "
+        "every pair of register-taking modes x the full register product (7 classes) / 48 seeded random register pairs, "
+        "seeded random offsets and jump distances, and the assembler on the printed text of label-free lines); TLC: Core(Decode(bytes)) = Core(Asm(printed "
         "text)); distinct = distinct (class, path, printed text, label addresses)")
     fams = sorted(LAWS)
     table = isagen.laws_and_table(ctx, "Msp430_MC", LAWS, fams if mine is None else [], thorough and mine is None, WHAT,
